@@ -592,6 +592,33 @@ def run(ctx, anchors=None):
                  "`%s` stores an iterator into the script being stepped; under `exec` that script is a temporary of Instance::eval, so the session keeps a dangling iterator (used by the next signature check)" % astq.estr(sn))
 
 
+def upper_bound_from_guard(cn, t, vtxt):
+    """largest value of the variable vtxt admitted by the guard `cn` having truth t (constant bound), or None:
+    v < K / v <= K holding, v >= K / v > K failing, and the mirrored spellings"""
+    if cn is None or cn.get("k") != "bin" or cn.get("op") not in ("<", "<=", ">", ">="):
+        return None
+    l, r = cn["lhs"], cn["rhs"]
+    while l is not None and l.get("k") == "cast":
+        l = l["e"]
+    while r is not None and r.get("k") == "cast":
+        r = r["e"]
+    op = cn["op"]
+    if astq.estr(l) == vtxt and astq.const_value(cn["rhs"]) is not None:
+        K = astq.const_value(cn["rhs"])
+    elif astq.estr(r) == vtxt and astq.const_value(cn["lhs"]) is not None:
+        K = astq.const_value(cn["lhs"])
+        op = {"<": ">", "<=": ">=", ">": "<", ">=": "<="}[op]      # K op v  ==  v op' K
+    else:
+        return None
+    if not t:
+        op = {"<": ">=", "<=": ">", ">": "<=", ">=": "<"}[op]
+    if op == "<":
+        return K - 1
+    if op == "<=":
+        return K
+    return None
+
+
 def bounded_store(f, cfg, n, idx, ivars, size, base):
     if not ivars:
         return False, "index expression has no variable"
@@ -602,6 +629,9 @@ def bounded_store(f, cfg, n, idx, ivars, size, base):
         cn = f.node_by_id(c)
         if cn is None or cn.get("k") != "bin":
             continue
+        ub = upper_bound_from_guard(cn, t, vtxt)
+        if ub is not None and ub < size:
+            return True, "dominated by `%s` being %s" % (astq.estr(cn), "true" if t else "false")
         if cn["op"] in ("<", "<=") and astq.estr(cn["lhs"]) == vtxt and t:
             K = astq.const_value(cn["rhs"])
             if K is not None:
@@ -644,10 +674,9 @@ def bounded_store(f, cfg, n, idx, ivars, size, base):
             ks = []
             for (c, t) in cfg.guards_of(m):
                 cn = f.node_by_id(c)
-                if cn is not None and cn.get("k") == "bin" and cn["op"] == "<" and astq.estr(cn["lhs"]) == vtxt and t:
-                    K = astq.const_value(cn["rhs"])
-                    if K is not None:
-                        ks.append(K)
+                ub = upper_bound_from_guard(cn, t, vtxt)
+                if ub is not None:
+                    ks.append(ub + 1)
             if ks:
                 maxK = max(maxK or 0, min(ks))
                 continue
